@@ -6,7 +6,7 @@ SPEC = {
          "rule": "each evaluation = one free-running round on a fresh real FifoMapCache under the race detector (GOMAXPROCS 16): writers on disjoint keys released by a start barrier, readers (Get/Contains/Keys/Values/Len/Capacity), explicit sweepers, the cache's own ticker at 50-1000us; checked by the Go-side monitors of Props/C08.v: no panic/hang/race report, every value read was Set for that key, distinct keys within Capacity() all present with the last value, single-writer keys hold the last value or are absent, no duplicate in Keys(), quiescent views agree, ticker goroutine gone after cancel. Rounds differ by seed-derived shape (distinct by round seed); non-trivial = two writers were demonstrably active at the same time (overlapping monotonic-clock intervals)."},
         {"kind": "c08stress", "harness": "c08conc", "name": "famB", "family": "B",
          "corr": "free-running -race stress of FifoMapCache, family B (same-key writers, concurrent Clear/Resize): K1/K3 expected and classified, anything else is a violation",
-         "rule": "as family A plus hot keys written by several goroutines (B-samekey), concurrent Clear/Resize (B-clear) or both (B-all). A race report is K1 only if one of its two access stacks runs inside FifoMapCache.Clear or FifoMapCache.Resize (first FifoMapCache method on the stack; function names, never line numbers); a duplicate key is K3 only if the recorded history has two Sets (or a Set and a Delete) of that key by different goroutines with overlapping intervals (or, with Clear/Resize around, a Set of the key overlapping a Clear/Resize call = consequence of K1); every other failure is reported."},
+         "rule": "as family A plus hot keys written by several goroutines (B-samekey), concurrent Clear/Resize (B-clear) or both (B-all). A race report is K1 only if one of its two access stacks runs inside FifoMapCache.Clear or FifoMapCache.Resize (one of these two methods anywhere on the access stack, e.g. through a helper; function names, never line numbers); a duplicate key is K3 only if the recorded history has two Sets (or a Set and a Delete) of that key by different goroutines with overlapping intervals (or, with Clear/Resize around, a Set of the key overlapping a Clear/Resize call = consequence of K1); every other failure is reported."},
     ],
     "trusted": ["sync.Mutex/RWMutex, context cancellation, time.Ticker and the goroutine scheduler by contract",
                 "GenericStack and SafeMap methods are single atomic steps of the cache model (their own locking is C11's / C07's subject; F9 fixed)",
@@ -62,6 +62,13 @@ def parse_race_reports(text):
             for f in fs:
                 m = CACHE_METHOD.search(f)
                 if m:
+                    acting = m.group(1)
+                    break
+            # an access made by a helper called from Clear/Resize is still Clear's/Resize's access (K1):
+            # look for these two public methods anywhere on the stack, not only as the innermost frame
+            for f in fs:
+                m = CACHE_METHOD.search(f)
+                if m and m.group(1) in ("Clear", "Resize"):
                     acting = m.group(1)
                     break
             stacks.append((acting, top))
